@@ -5,7 +5,7 @@ ST = "verif-stubs/async_backend.py"
 
 
 def register(R):
-    R.ghost(delivered="int", live_gens="int")
+    R.ghost(delivered="int", live_gens="int", last_timeout="opt[xreal]")
     R.external("contextlib.nullcontext", "stubs.async_backend.NullContext")
     R.module(ST)
     R.shape("NullContextModel", cls="NullContext", fields={})
@@ -176,7 +176,7 @@ def register_client_task_variant(R, variant, shape, cons_inv, gen, closed_once, 
                 "transport": "AsyncStreamTransport"},
         locals_types={"action": "opt[obj]", "timeout": "opt[xreal]"},
         requires=[("deserializer-needs-input", "fn('S_kind', 'int', b'') == 0")],
-        loops={1: {"inv": [sent_once, f"not {gen}.finished", f"{gen}.closed == 0", "ghost.actions >= old(ghost.actions)", "ghost.live_gens == old(ghost.live_gens) + 1"] + cons_inv}},
+        loops={1: {"inv": [sent_once, f"not {gen}.finished", f"{gen}.closed == 0", "ghost.actions >= old(ghost.actions)", "ghost.live_gens == old(ghost.live_gens) + 1", "timeout == ghost.last_timeout"] + cons_inv}},
         ensures=[
             ("connection-closed-on-exit", "transport.close_requested", "C15 C14"),
             ("no-generator-left-running-and-the-live-one-closed-exactly-once", closed_once, "C15"),
@@ -187,6 +187,7 @@ def register_client_task_variant(R, variant, shape, cons_inv, gen, closed_once, 
             ("no-generator-left-running-and-the-live-one-closed-exactly-once", closed_once, "C15"),
             ("every-action-produced-by-the-receiver-was-handed-to-the-handler-exactly-once", sent_once, "C15"),
         ]},
-        modifies=["transport.close_requested", "ghost.delivered", "ghost.actions", "ghost.live_gens", "ghost.IN", "ghost.recv_calls", "ghost.EOF", "ghost.io_errors"],
+        env={"call_hints": {"next": [("the-receiver-waits-exactly-the-timeout-the-handler-just-yielded", "arg('timeout') == pre(ghost.last_timeout)", "C15")]}},
+        modifies=["transport.close_requested", "ghost.delivered", "ghost.actions", "ghost.live_gens", "ghost.last_timeout", "ghost.IN", "ghost.recv_calls", "ghost.EOF", "ghost.io_errors"],
         tags="C15 C14",
     )
